@@ -270,6 +270,9 @@ def createAll (f : Facts) : List ParsedEntry → PM' (List (List Built))
         | .panic s => .error (.panic s, st)
         | .error msgs => .error (.error, { st with stderr := st.stderr ++ msgs ++ msgs })
         | .ok b =>
+          match b.lateError with
+          | some msg => .error (.error, { st with stderr := st.stderr ++ b.warnings ++ [msg, msg] })
+          | none =>
           match fns ms { st with stderr := st.stderr ++ b.warnings } with
           | .error e => .error e
           | .ok (bs, st') => .ok (b :: bs, st')
